@@ -4,7 +4,7 @@ import os
 from fractions import Fraction
 
 from .. import common, tlc, patterning
-from ..objects import warmup
+from ..objects import warmup, make_object
 
 OMEGA = ["P", "E", "D", "K", "R"]
 
@@ -28,7 +28,7 @@ def scramble(group, rng):
 def one_sequence(ctx, lc, seq, tid, hist_mode):
     """All clauses on one sequence; returns the trace for TLC."""
     rng = ctx.rng
-    o = lc.SP(seq)
+    o, seq, how = make_object(lc, seq, rng) if len(seq) > 8 else (lc.SP(seq), seq, "direct")
     hist = []
     if hist_mode == 1:
         hist = [{"call": "get_kappa"}, {"call": "get_deltaMax"}]
